@@ -120,7 +120,11 @@ def symbolic_case(rng):
         eps = rng.choice([0.0, 0.1, 0.5, 2.0])
         opt = rng.choice(["absolute", "relative"])
         sig.append(opt)
-        x, d, fx0 = ps.inexact_gradient_step(x0, target, gamma, eps, notion=opt)
+        if opt == "absolute" and rng.random() < 0.4:
+            sig.append("default")
+            x, d, fx0 = ps.inexact_gradient_step(x0, target, gamma, eps)       # documented: "By default, notion='absolute'"
+        else:
+            x, d, fx0 = ps.inexact_gradient_step(x0, target, gamma, eps, notion=opt)
         ret_checks.append(("x = x0 - gamma*d", pkey(P.of(x)) == pkey(P0 - gamma * P.of(d))))
         ret_checks.append(("d fresh leaf", d.get_is_leaf() and _pos(Point.list_of_leaf_points, d) >= np0))
         at_x0 = [t for t in target.list_of_points if pkey(P.of(t[0])) == pkey(P0)]
